@@ -881,6 +881,23 @@ func TestC05(t *testing.T) {
 			}})
 		}
 
+		// corpus: a cached kind with contents behind a re-batching layer; the first change after the start travels in the
+		// same batch as the bootstrap contents and the Bootstrapped marker - it must still wake the controllers
+		for _, first := range []pWrite{{Op: "touch", Typ: "T", ID: "a"}, {Op: "create", Typ: "T", ID: "b"}, {Op: "destroy", Typ: "T", ID: "a"}} {
+			for _, ins := range [][]inSpec{{{NS: "n1", Typ: "T", Kind: 3}}, {{NS: "n1", Typ: "T", Kind: 0}}} {
+				fl := "q"
+				if ins[0].Kind == 0 {
+					fl = "r"
+				}
+
+				cases = append(cases, c05Case{Kind: "run", Sc: pScenario{
+					Probes: []pProbe{{Name: "c0", Flavour: fl, Ins: ins}}, Cached: true, Coalesce: true,
+					Pre:   []pWrite{{Op: "create", Typ: "T", ID: "a"}},
+					Steps: []pWrite{first, {Op: "quiesce"}},
+				}})
+			}
+		}
+
 		for range tier(250, 6000) {
 			sc := pScenario{Probes: genPipeProbes(r), Cached: r.chance(1, 3)}
 			sc.Coalesce = r.chance(1, 4)
